@@ -50,6 +50,7 @@ pub fn run(cfg: &Cfg, log: &mut Log) {
                 }
             }
         }
+        vals.extend(big_values(&rc));
         for v in vals {
             log.begin(rc.name);
             log.count("evaluations", 1);
